@@ -217,6 +217,9 @@ func (e *Exec) valEq(x, y Value, in ssa.Instruction) *Term {
 		return r
 	case OpaqueV:
 		return tt.Bool(a == y)
+	case *ctxObj:
+		b, ok := y.(*ctxObj)
+		return tt.Bool(ok && a == b)
 	}
 	panic(mkEnd("unsupported", fmt.Sprintf("equality on %T at %s", x, e.pos2(in))))
 }
